@@ -42,14 +42,18 @@ ASSUMPTIONS = [
     'never bool), text -> string cell with exactly that text, logical -> '
     'boolean cell, error -> its text (#DIV/0! ...), blank and empty text -> '
     'empty cell',
-    'ranges of more than 4096 cells (whole rows) are checked on their '
-    'populated part plus a sample of their blank cells',
+    'ranges of more than 4096 cells (whole rows) are checked on the cells '
+    'that smaller solved nodes cover; where several solved nodes cover one '
+    'cell with different values (possible after range overrides, see the C07 '
+    'findings) any of those values is accepted',
+    'numbers are kept below 1e10: the xlsx number format keeps 15-16 digits, '
+    'so compare() with its absolute tolerance cannot hold beyond that',
 ]
 
 KINDS = {'n': 'number', 's': 'text', 'b': 'logical', 'e': 'error', 'f': 'formula',
          'd': 'date', 'inlineStr': 'text', 'str': 'text'}
 HOSTILE = [5.0, -3.5, 0.0, 1.0, 'txt', '', True, False, '#N/A', '#DIV/0!',
-           '=1+1', '12', 'TRUE', '#notanerror', ' lead', "'quoted", 1e15, 0.1 + 0.2,
+           '=1+1', '12', 'TRUE', '#notanerror', ' lead', "'quoted", 123456789.125, 0.1 + 0.2,
            'BLANK']
 
 
@@ -91,7 +95,7 @@ def solved_cells(sol):
             continue
         n = (c2 - c1 + 1) * (r2 - r1 + 1)
         if n > 4096:
-            big.append((sid, c1, r1, c2, r2))
+            big.append((sid, c1, r1, c2, r2, r))
             continue
         try:
             val = r.value
@@ -179,6 +183,14 @@ def judge_books(ctx, w, mode, sol, before, after, sig_extra=''):
         key = (bk, shn, coord)
         written.add(key)
         wants = {expected_form(v) for v in vals}
+        for bsid, c1, r1, c2, r2, rg in big:
+            # a whole row/column node covering the cell may hold another value
+            # (solutions with range overrides are not always consistent: C07)
+            if bsid == sid and c1 <= c <= c2 and r1 <= r <= r2:
+                try:
+                    wants.add(expected_form(xl.canon(rg.value[r - r1, c - c1])))
+                except Exception:
+                    pass
         got = after.get(key, ('empty', None, None))[:2]
         n += 1
         if not any(_same_form(got, want) for want in wants):
@@ -195,7 +207,7 @@ def judge_books(ctx, w, mode, sol, before, after, sig_extra=''):
     # cells outside the solution are untouched
     inbig = lambda key: any(
         _sheet_key(sid) == key[:2] and c1 <= gw.split_addr(key[2])[0] <= c2
-        and r1 <= gw.split_addr(key[2])[1] <= r2 for sid, c1, r1, c2, r2 in big)
+        and r1 <= gw.split_addr(key[2])[1] <= r2 for sid, c1, r1, c2, r2, _ in big)
     m = 0
     for key in set(before) | set(after):
         if key in written or inbig(key):
@@ -211,8 +223,13 @@ def judge_books(ctx, w, mode, sol, before, after, sig_extra=''):
 
 
 def make_case(seed, i):
+    from .c07 import _ranges_over_arrays
+    from .c08 import _rect_nodes
     rng = random.Random('fvmon/C16/%s/%s' % (seed, i))
     desc = gw.gen(rng)
+    if i % 3 == 0:
+        _ranges_over_arrays(rng, desc)
+    rects = _rect_nodes(desc)
     consts = wbrun.constant_cells(desc)
     forms = wbrun.formula_cells(desc)
     sols = []
@@ -241,6 +258,14 @@ def make_case(seed, i):
                 s = rng.randrange(len(desc['books'][b]['sheets']))
                 key, v = (b, s, rng.randint(1, 3), rng.randint(1, 9)), rng.choice(HOSTILE)
             X.append([list(key), v])
+        if j and rects and rng.random() < 0.4:
+            # a whole rectangle (possibly over an array formula) overridden
+            b, s_, c1, r1, c2, r2 = rng.choice(rects)
+            cells_ = {(b, s_, c, r) for c in range(c1, c2 + 1) for r in range(r1, r2 + 1)}
+            X = [x for x in X if tuple(x[0]) not in cells_]
+            X.append([[b, s_, c1, r1, c2, r2], [
+                [rng.choice([h for h in HOSTILE if h != 'BLANK'])
+                 for _ in range(c1, c2 + 1)] for _ in range(r1, r2 + 1)]])
         O = None
         if j == 2 and forms and rng.random() < 0.7:
             O = [list(k) for k in rng.sample(forms, min(len(forms), rng.randint(1, 3)))]
@@ -256,6 +281,9 @@ def _cellv(desc, key):
 def _solve(m, desc, spec):
     inputs = {}
     for key, v in spec['X']:
+        if len(key) == 6:
+            inputs[gw.rect_key(desc, *key)] = [[_lib_value(x) for x in row] for row in v]
+            continue
         nid = gw.key_of(desc, *key)
         inputs[nid] = _lib_value(v)
     kw = {}
